@@ -680,10 +680,10 @@ class _SetOperation(Selectable, Term):
     def get_sql(self, with_alias: bool = False, subquery: bool = False, **kwargs: Any) -> str:
         set_operation_template = " {type} {query_string}"
 
-        kwargs.setdefault("dialect", self.base_query.dialect)
-        # This initializes the quote char based on the base query, which could be a dialect specific query class
-        # This might be overridden if quote_char is set explicitly in kwargs
-        kwargs.setdefault("quote_char", self.base_query.QUOTE_CHAR)
+        # This initializes the quoting conventions (quote char, alias quote char, AS keyword, ...) and the dialect based on
+        # the base query, which could be a dialect specific query class, so that every operand is rendered alike.
+        # Anything set explicitly in kwargs (e.g. by an enclosing query) is kept.
+        self.base_query._set_kwargs_defaults(kwargs)
 
         base_querystring = self.base_query.get_sql(subquery=self.base_query.wrap_set_operation_queries, **kwargs)
 
